@@ -90,8 +90,78 @@ def strategy_impl(draw, tier):
     }
 
 
+@st.composite
+def faces_case(draw):
+    """The labelling clauses on a face-connected grid: scalar and vector inputs (the halo of a vector component comes from
+    the *other* component across axis-swapping links)."""
+    nf = draw(st.integers(2, 3))
+    N = draw(st.integers(2, 3))
+    return {"kind": "faces", "nf": nf, "N": N, "table": draw(gen.link_tables(nf, ("X", "Y"), min_pairs=1)),
+            "op": draw(st.sampled_from(["diff", "interp", "min", "max"])), "what": draw(st.sampled_from(["scalar", "X", "Y"])),
+            "from_center": draw(st.booleans()), "boundary": draw(st.sampled_from(M.RULES)),
+            "names": draw(st.permutations(["u", "v", "tracer", "phi"]))[:2], "keep_coords": draw(st.booleans()),
+            "values": draw(gen.data_values([2, nf, N, N], elements=st.integers(-9, 9).map(float)))}
+
+
+def check_faces(case, ctx):
+    import xarray as xr
+    from xgcm import Grid
+
+    nf, N = case["nf"], case["N"]
+    coords = {"xc": ("xc", np.arange(N) + 0.5, {"units": "m"}), "xl": ("xl", np.arange(N) * 1.0, {"units": "m", "edge": 1}),
+              "yc": ("yc", np.arange(N) + 0.5), "yl": ("yl", np.arange(N) * 1.0, {"long_name": "y edge"}), "face": ("face", np.arange(nf))}
+    ds = xr.Dataset(coords=coords)
+    ds = ds.assign_coords(area=(("face", "yc", "xc"), np.ones((nf, N, N))), depth_l=(("yc", "xl"), np.ones((N, N))))
+    grid = must_return("Grid construction", Grid, ds, coords={"X": {"center": "xc", "left": "xl"}, "Y": {"center": "yc", "left": "yl"}},
+                       face_connections=gen.table_to_xgcm(case["table"]), periodic=False, autoparse_metadata=False, boundary=case["boundary"])
+    fc = case["from_center"]
+    vals = np.asarray(case["values"], dtype=np.float64)
+    name_a, name_b = case["names"]
+    what = case["what"]
+    ax = "X" if what in ("scalar", "X") else "Y"
+    if fc:
+        dims_a = dims_b = ["face", "yc", "xc"]
+        to = "left"
+    else:
+        dims_a = ["face", "yc", "xl"] if ax == "X" else ["face", "yl", "xc"]
+        dims_b = ["face", "yl", "xc"] if ax == "X" else ["face", "yc", "xl"]
+        to = "center"
+    a = xr.DataArray(vals[0], dims=dims_a, name=name_a)
+    b = xr.DataArray(vals[1], dims=dims_b, name=name_b)
+    fn = getattr(grid, case["op"])
+    if what == "scalar":
+        got = must_return(f"Grid.{case['op']} (scalar, face-connected)", fn, a, ax, to=to, keep_coords=case["keep_coords"])
+    else:
+        other = "Y" if ax == "X" else "X"
+        got = must_return(f"Grid.{case['op']} (vector component, face-connected)", fn, {ax: a}, ax, to=to, other_component={other: b},
+                          keep_coords=case["keep_coords"])
+    if got.name != name_a:
+        raise Violation("result of an operation on a face-connected grid does not keep the input's name", got=got.name, expected=name_a,
+                        input_kind=what, partner=name_b if what != "scalar" else None)
+    new = {"X": {"left": "xl", "center": "xc"}, "Y": {"left": "yl", "center": "yc"}}[ax][to]
+    old = {"X": {"left": "xc", "center": "xl"}, "Y": {"left": "yc", "center": "yl"}}[ax][to]
+    if new not in got.dims or old in got.dims:
+        raise Violation("axis dimension not replaced by the target position's dimension", dims=list(got.dims), expected_new=new)
+    for d in got.dims:
+        if d not in got.coords:
+            raise Violation("dimension coordinate of the grid dataset missing on the result (face-connected grid)", dim=d)
+        same_coord(got.coords[d], ds.coords[d], d)
+    for name, c in got.coords.items():
+        if old in c.dims:
+            raise Violation("result carries a coordinate defined on the abandoned dimension (face-connected grid)", coord=str(name))
+    for extra, edims in (("area", ("face", "yc", "xc")), ("depth_l", ("yc", "xl"))):
+        fits = all(d in got.dims for d in edims)
+        want = fits and case["keep_coords"]
+        if (extra in got.coords) != want:
+            raise Violation("non-dimension coordinate attached / missing against the rule (fits the result and keep_coords)", coord=extra,
+                            attached=extra in got.coords, fits=fits, keep_coords=case["keep_coords"])
+    swapping = any(l is not None and l[1] != ax_ for per in case["table"].values() for ax_, sides in per.items() for l in sides)
+    return {"nontrivial": True, "classes": ["kind:faces", f"op:{case['op']}", f"input:{what}", "swapping-link" if swapping else "no-swapping-link",
+                                            f"keep:{case['keep_coords']}"]}
+
+
 def strategy(tier):
-    return strategy_impl(tier)
+    return st.integers(0, 5).flatmap(lambda k: faces_case() if k == 0 else strategy_impl(tier))
 
 
 def build_ds(case):
@@ -122,6 +192,8 @@ def build_ds(case):
 def check(case, ctx):
     import xarray as xr
 
+    if case.get("kind") == "faces":
+        return check_faces(case, ctx)
     axes = case["axes"]
     by_name = {a["name"]: a for a in axes}
     ds, sizes = build_ds(case)
